@@ -88,6 +88,11 @@ def _tracing_early():
         return False
 
 
+class Inconclusive(Exception):
+    """Raised by a harness in replay mode when a symbolic counterexample is real but does not (within the
+    replay's bounds) amount to a violation of the property - reported, neither alarmed nor counted."""
+
+
 class HarnessError(Exception):
     """Raised by harness glue when the *harness*, not the library, is wrong."""
 
